@@ -83,3 +83,18 @@ CHECKS.append({
     "level_note": _PY_NOTE,
 })
 NOT_APPLICABLE[:] = [n for n in NOT_APPLICABLE if n["property_id"] not in {c["id"] for c in CHECKS}]
+RUNNERS["C14"] = ("keyboard_check", "main", ())
+RUNNERS["C11"] = ("membus_check", "main", ())
+CHECKS.append({
+    "id": "C11", "engine": "pysym", "level": "other", "design_ref": "DESIGN.md section 4 / C11",
+    "technique": "inductive step decided by z3: one symbolic store + load through the real PCE500Memory/MemoryBus at symbolic 32-bit addresses from an arbitrary backing store (z3 arrays), per memory configuration",
+    "level_text": "For each memory configuration (no ROM, full/short ROM image, card absent/8K/read-only, RAM overlay) z3 decides for all 32-bit addresses and values that a load after a store returns the stored byte iff both addresses denote the same writable canonical cell and the previous value otherwise, that internal and external cells never influence each other, that read-only cells never change and that multi-byte accesses are little-endian compositions. Python machine model only in this revision.",
+    "level_note": _PY_NOTE,
+})
+CHECKS.append({
+    "id": "C14", "engine": "pysym", "level": "other", "design_ref": "DESIGN.md section 4 / C14",
+    "technique": "step relations decided by z3: one symbolic KeyboardMatrix operation (scan tick, strobe write, key-input read, press/release, FIFO enqueue) from an arbitrary state of two symbolic keys / an arbitrary ring-buffer state",
+    "level_text": "z3 decides from arbitrary key states (flags, tick counters, thresholds, strobe bits symbolic; both column polarities; KOL and KOH columns) that the key-input register shows exactly the debounced keys on strobed columns, that each key follows the debounce/repeat/release automaton with press only on entering and release only on leaving the debounced state, that idle keys emit nothing and that the event ring never exceeds 7 entries, drops only its oldest entry and keeps order. Python matrix model only; KEYI gating is machine-level (C12).",
+    "level_note": _PY_NOTE,
+})
+NOT_APPLICABLE[:] = [n for n in NOT_APPLICABLE if n["property_id"] not in {c["id"] for c in CHECKS}]
